@@ -1,4 +1,5 @@
 import IV.Lemmas.Peg
+import IV.Gen.Grammars
 /-!
 C19 — parser combinators implement ordered-choice PEG semantics.
 
@@ -166,11 +167,137 @@ theorem prim_eof (inp : Str) (pos : Nat) :
     have := List.getElem?_eq_none_iff.mp h
     simp [this]
 
-/-- no parser ever moves backwards: a successful `process` returns a position ≥ the one it was
-given.  Unconditional — tags, function errors, any rule table, any fuel. -/
+/-- no parser ever moves backwards, and none runs past the end of the input: a successful
+`process` returns a position `p ≥ pos` with `p ≤ len(input)` (or `p = pos`).  Unconditional —
+tags, function errors, any rule table, any fuel. -/
 theorem run_never_moves_backwards (rules : List Term) (inp : Str) (f : Nat) (t : Term) (pos p : Nat) (v : Val)
-    (σ σ' : St) (h : run rules inp f t pos σ = (.ok p v, σ')) : pos ≤ p :=
-  (pos_mono_all rules inp f).1 t pos σ p v σ' h
+    (σ σ' : St) (h : run rules inp f t pos σ = (.ok p v, σ')) : pos ≤ p ∧ (p = pos ∨ p ≤ inp.length) :=
+  ((adv_all rules inp f).1 t pos σ p v σ' h).1
+
+/-- the syntactic check `Term.consuming` is sound: such a term never succeeds without consuming -/
+theorem consuming_sound (rules : List Term) (inp : Str) (f : Nat) (t : Term) (pos p : Nat) (v : Val)
+    (σ σ' : St) (h : run rules inp f t pos σ = (.ok p v, σ')) (hc : t.consuming = true) : pos < p :=
+  ((adv_all rules inp f).1 t pos σ p v σ' h).2 hc
+
+/-! ### termination -/
+
+/-- NO DIVERGENCE.  For a well-formed grammar (`WellFormed`, decidable: Many/Until bodies are
+syntactically consuming; every rule body consumes before it re-enters a rule — no left recursion;
+the top term may reference rules anywhere) the fuel `bound rules t n`, computed from the term, the
+rule table and the number `n` of characters that remain, suffices: `run` does not answer
+`diverge`.  Any state, tags and function errors included; more fuel is fine too. -/
+theorem no_divergence (rules : List Term) (inp : Str) (t : Term) (h : WellFormed rules t = true)
+    (n pos : Nat) (σ : St) (f : Nat) (hn : inp.length - pos ≤ n) (hf : bound rules t n ≤ f) :
+    (run rules inp f t pos σ).1 ≠ .diverge :=
+  no_divergence_aux rules inp t h n pos σ f hn hf
+
+/-- … so on well-formed tag-free grammars the computed fuel DECIDES the PEG outcome: whatever
+`run` answers at that fuel is the (unique) outcome PEG semantics prescribes — `diverge` is never
+the reason for an answer. -/
+theorem run_decides (rules : List Term) (inp : Str) (hR : RulesTagFree rules) (t : Term) (pos : Nat)
+    (hw : WellFormed rules t = true) (htf : t.tagFree = true) (σ σ' : St) (r : Res) (f : Nat)
+    (hf : bound rules t (inp.length - pos) ≤ f) (h : run rules inp f t pos σ = (r, σ')) (hc : σ'.ferr = false) :
+    Ev rules inp t pos r ∧ σ' = σ ∧ ∀ r', Ev rules inp t pos r' → r' = r := by
+  have hnd := no_divergence rules inp t hw (inp.length - pos) pos σ f (Nat.le_refl _) hf
+  rw [h] at hnd
+  have hev := run_sound rules inp hR f t pos σ σ' r h htf hc hnd
+  exact ⟨hev, backtrack_clean rules inp hR f t pos σ σ' r h htf hc,
+    fun r' h' => ev_deterministic rules inp hR t pos r' r h' hev htf⟩
+
+/-! ### the shipped grammars (IV/Gen/Grammars.lean, regenerated from the live objects on every run) -/
+
+open IV.Gen.Grammars in
+/-- the translated JSON grammar is well formed and tag-free -/
+theorem json_grammar_wellformed :
+    WellFormed jsonRules jsonTop = true ∧ jsonTop.tagFree = true ∧ Term.tagFreeL jsonRules = true := by decide
+
+open IV.Gen.Grammars in
+/-- the translated tag-expression grammar is well formed and tag-free -/
+theorem taglang_grammar_wellformed :
+    WellFormed taglangRules taglangTop = true ∧ taglangTop.tagFree = true ∧ Term.tagFreeL taglangRules = true := by
+  decide
+
+theorem rulesTagFree_of_tagFreeL : ∀ (rules : List Term), Term.tagFreeL rules = true → RulesTagFree rules := by
+  intro rules
+  induction rules with
+  | nil => intro _ i t h; simp at h
+  | cons r rs ih =>
+    intro h i t hi
+    simp only [Term.tagFreeL, Bool.and_eq_true] at h
+    cases i with
+    | zero => simp at hi; subst hi; exact h.1
+    | succ i => simp at hi; exact ih h.2 i t hi
+
+open IV.Gen.Grammars in
+/-- hence: on EVERY input the JSON grammar terminates within the computed fuel, and what it
+answers (no function error) is the unique PEG outcome, with the context untouched -/
+theorem json_grammar_decided (inp : Str) (σ σ' : St) (r : Res)
+    (h : run jsonRules inp (bound jsonRules jsonTop inp.length) jsonTop 0 σ = (r, σ')) (hc : σ'.ferr = false) :
+    r ≠ .diverge ∧ Ev jsonRules inp jsonTop 0 r ∧ σ' = σ := by
+  have hw := json_grammar_wellformed
+  have hR := rulesTagFree_of_tagFreeL _ hw.2.2
+  have := run_decides jsonRules inp hR jsonTop 0 hw.1 hw.2.1 σ σ' r _ (by simp) h hc
+  exact ⟨ev_never_diverge _ _ _ _ _ this.1, this.1, this.2.1⟩
+
+open IV.Gen.Grammars in
+/-- the same for the tag-expression grammar -/
+theorem taglang_grammar_decided (inp : Str) (σ σ' : St) (r : Res)
+    (h : run taglangRules inp (bound taglangRules taglangTop inp.length) taglangTop 0 σ = (r, σ')) (hc : σ'.ferr = false) :
+    r ≠ .diverge ∧ Ev taglangRules inp taglangTop 0 r ∧ σ' = σ := by
+  have hw := taglang_grammar_wellformed
+  have hR := rulesTagFree_of_tagFreeL _ hw.2.2
+  have := run_decides taglangRules inp hR taglangTop 0 hw.1 hw.2.1 σ σ' r _ (by simp) h hc
+  exact ⟨ev_never_diverge _ _ _ _ _ this.1, this.1, this.2.1⟩
+
+/-- `Parser.__call__` on the input at the computed fuel returns a value `==` v -/
+def parsesTo (rules : List Term) (top : Term) (inp : String) (v : Val) : Bool :=
+  match (call rules inp.toList (bound rules top inp.length) top).1 with
+  | .value w => w.beq v
+  | _ => false
+
+def rejects (rules : List Term) (top : Term) (inp : String) : Bool :=
+  (call rules inp.toList (bound rules top inp.length) top).1.isParseError
+
+/-- parse a tag expression with the translated grammar, then `Predicate.test(tags)` -/
+def tagTest (inp : String) (tags : List String) : Option Bool :=
+  match (call IV.Gen.Grammars.taglangRules inp.toList
+      (bound IV.Gen.Grammars.taglangRules IV.Gen.Grammars.taglangTop inp.length) IV.Gen.Grammars.taglangTop).1 with
+  | .value p => evalPred (tags.map String.toList) 100 p
+  | _ => none
+
+open IV.Gen.Grammars in
+/-- sample evaluations of the TRANSLATED JSON grammar, checked by the kernel: they pin the literal
+values, number construction, dict construction, the repaired white-space handling and the repaired
+`sep_by` (a semantic edit of json_parser.py that changes one of them breaks this theorem) -/
+theorem json_grammar_samples :
+    parsesTo jsonRules jsonTop "true" (.list [.bool true, .none]) = true ∧
+    parsesTo jsonRules jsonTop "false" (.list [.bool false, .none]) = true ∧
+    parsesTo jsonRules jsonTop " null " (.list [.none, .none]) = true ∧
+    parsesTo jsonRules jsonTop "[0, false]" (.list [.list [.int 0, .bool false], .none]) = true ∧
+    parsesTo jsonRules jsonTop "-12.50" (.list [.float "-12.50".toList, .none]) = true ∧
+    parsesTo jsonRules jsonTop "{\"a\" :-7, \"b\":[ ], \"a\":\"x y\"}"
+      (.list [.dict [.list [.str ['a'], .str "x y".toList], .list [.str ['b'], .list []]], .none]) = true ∧
+    rejects jsonRules jsonTop "[1,]" = true ∧ rejects jsonRules jsonTop "" = true ∧
+    rejects jsonRules jsonTop "{\"a\";1}" = true := by
+  decide +kernel
+
+open IV.Gen.Grammars in
+/-- the two recorded over-acceptances, on the translated grammar itself
+(known findings json-leading-separator, json-leading-zero) -/
+theorem json_grammar_overaccepts_witness :
+    parsesTo jsonRules jsonTop "[,1]" (.list [.list [.int 1], .none]) = true ∧
+    parsesTo jsonRules jsonTop "01" (.list [.int 1, .none]) = true := by
+  decide +kernel
+
+/-- sample evaluations of the TRANSLATED tag-expression grammar: `!` binds tighter than `&`, `&`
+tighter than `|` and `,`; parentheses group -/
+theorem taglang_grammar_samples :
+    tagTest "a | b & !c" ["a"] = some true ∧ tagTest "a | b & !c" ["b"] = some true ∧
+    tagTest "a | b & !c" ["b", "c"] = some false ∧ tagTest "a | b & !c" ["c"] = some false ∧
+    tagTest "a , b&c" ["a"] = some true ∧ tagTest "(a , b)&c" ["a"] = some false ∧
+    tagTest "!(a|b)" [] = some true ∧ tagTest "!a|b" ["a", "b"] = some true ∧ tagTest "!(a|b)" ["b"] = some false ∧
+    tagTest "/net | \"x y\"" ["network"] = some true ∧ tagTest "! a" [] = none := by
+  decide +kernel
 
 /-! ### consequences read off the semantics (what the property's sentence lists) -/
 
@@ -256,6 +383,12 @@ example : run [] ['a', 'c'] 10 (.choice [.seq [chr 'a', chr 'b'], .seq [chr 'a',
     (.ok 2 (.list [.str ['a'], .str ['c']]), St.init) := by
   simp [run, runChoice, runSeq, chr, Prim.run, St.init, LRes.toRes]
 example : Ev [] ['a'] (.opt (chr 'b') .none) 0 (.ok 0 .none) := .optNone (.primFail (by simp [Prim.run]))
+/-- a recursive well-formed grammar (balanced brackets through a Forward) meets no_divergence's hypothesis;
+a left-recursive one and a repetition over a non-consuming body do not -/
+example : WellFormed [.choice [.seq [chr 'a', .ref 0, chr 'b'], chr 'c']] (.keepLeft (.ref 0) (.prim .eof)) = true := by decide
+example : WellFormed [.choice [.seq [.ref 0, chr 'b'], chr 'c']] (.ref 0) = false := by decide
+example : WellFormed [] (.many (.opt (chr 'a') .none) 0) = false := by decide
+example : bound [.choice [.seq [chr 'a', .ref 0, chr 'b'], chr 'c']] (.keepLeft (.ref 0) (.prim .eof)) 3 = 59 := by decide
 example : (tagGrammar true).tagFree = false := by simp [tagGrammar, Term.tagFree, Term.tagFreeL]
 
 end IV.Peg
